@@ -50,7 +50,7 @@ class Job:
     """One proof job = one harness file discharged against the extraction of one unit in one configuration."""
     def __init__(s, id, props, unit, harness, roots=None, stubs=None, entry='harness', cfgs=(BASE,), thorough_cfgs=None,
                  dfcc=None, unwind=None, flags=(), timeout=600, mem_gb=12, tier='quick', defines=(), floor=1,
-                 under_contract=(), trusted=(), bounded=None, replay=None, objbits=None, solver=None, variants=None):
+                 under_contract=(), trusted=(), bounded=None, replay=None, objbits=None, solver=None, variants=None, cut=()):
         s.id = id; s.props = list(props); s.unit = unit; s.harness = harness
         s.roots = collections.OrderedDict(roots or {}); s.stubs = collections.OrderedDict(stubs or {})
         s.entry = entry; s.cfgs = list(cfgs); s.thorough_cfgs = list(thorough_cfgs) if thorough_cfgs else None
@@ -59,6 +59,7 @@ class Job:
         s.defines = list(defines); s.floor = floor
         s.under_contract = list(under_contract)   # human-readable names of the real functions whose contract this job discharges
         s.trusted = list(trusted); s.bounded = bounded; s.replay = replay; s.objbits = objbits; s.solver = solver
+        s.cut = list(cut)        # loops closed by an invariant at the natural-loop head: 'ALIAS/label'
         s.variants = variants    # optional list of (suffix, extra_defines): the same harness discharged once per case split
 
 JOBS = []
@@ -151,6 +152,14 @@ def run_job(job, cfg, scratch, keep=False, variant=None):
         except ll2c.ExtractionError as ex:
             raise Undecided('extraction: %s' % ex)
         r.info = tr['info']
+        # every loop of the closure is either cut by a registered invariant or completely unwound (needs an explicit bound)
+        present = set('%s/%s' % (l['fn'], l['label']) for l in tr['info']['loops'])
+        hsrc = open(os.path.join(VERIF, job.harness)).read()
+        for c in job.cut:
+            if c not in present: raise Undecided('registered cut loop %s does not exist in the extraction (loops: %s)' % (c, ', '.join(sorted(present))[:800]))
+            if 'VERIF_LOOP_HEAD_' + c.replace('/', '_') not in hsrc: raise Undecided('harness defines no invariant hook for cut loop %s' % c)
+        uncut = sorted(present - set(job.cut))
+        if uncut and not job.unwind: raise Undecided('loops neither cut nor given an unwinding bound: %s' % ', '.join(uncut)[:800])
         wd = os.path.join(scratch, 'jobs', re.sub(r'[^A-Za-z0-9_.-]', '_', r.key)); os.makedirs(wd, exist_ok=True)
         open(os.path.join(wd, 'x_types.h'), 'w').write(tr['types']); open(os.path.join(wd, 'x_body.h'), 'w').write(tr['body'])
         gb = os.path.join(wd, 'a.gb')
